@@ -147,6 +147,9 @@ def collect_reads_in_parallel(sample, chr_id, args):
         for g in read_grouper.read_groups:
             group_dump.write("%s\n" % g)
     alignment_collector.alignment_stat_counter.dump(bamstat_file)
+    # the dump gets its terminator and is closed when the printer is destroyed: this must happen before the
+    # lock declares the chromosome collected, otherwise a run killed right after the lock appears cannot be resumed
+    del tmp_printer
 
     logger.info("Finished processing chromosome " + chr_id)
     open(lock_file, "w").close()
@@ -312,6 +315,16 @@ def construct_models_in_parallel(sample, chr_id, dump_filename, args, read_group
             tmp_extended_gff_printer.dump(gene_info, all_models)
         aggregator.transcript_model_global_counter.dump()
         transcript_stat_counter.dump(transcript_stat_file)
+    # every per-chromosome output must be on disk before the lock declares the chromosome processed: a run killed
+    # right after the lock appeared would otherwise be resumed on truncated files and silently lose records
+    aggregator.global_printer.flush()
+    if args.sqanti_output:
+        sqanti_t2t_printer.flush()
+    for gff_printer in [tmp_gff_printer, tmp_extended_gff_printer]:
+        if isinstance(gff_printer, GFFPrinter):
+            gff_printer.out_gff.flush()
+            if gff_printer.output_r2t:
+                gff_printer.out_r2t.flush()
     logger.info("Finished processing chromosome " + chr_id)
     open(lock_file, "w").close()
 
